@@ -243,6 +243,18 @@ func runC13(c *Ctx) {
 		if !ok1 || !ok2 || lo != 5000 || hi != 5999 {
 			o.Fail(in.Pos(), "the ephemeral range is not 5000-5999")
 		}
+		// the search runs over the IP of the very address the socket is then bound to
+		okIP := false
+		if fr, ok := asFieldLoad(cl.Call.Args[1]); ok && fr.SName == "net.UDPAddr" && fr.Field == "IP" {
+			for _, nc := range findU(dial, func(x ssa.Instruction) bool { return isPlainCall(x, "vnet.newUDPConn") }) {
+				if sameOrigin(fr.Base, nc.(*ssa.Call).Call.Args[0]) || fr.Base == nc.(*ssa.Call).Call.Args[0] {
+					okIP = true
+				}
+			}
+		}
+		if !okIP {
+			o.Fail(in.Pos(), "the free port is searched for another IP than the one of the address the socket is bound to: the chosen port can be taken there (bind fails although ports are free, or two sockets share an address)")
+		}
 	}
 	cg := p.CG()
 	for _, e := range cg.In[dial] {
@@ -937,6 +949,51 @@ func runC01(c *Ctx) {
 		}
 	}
 
+	// the loopback shortcut of the host is taken on the datagram's destination
+	isDstLoopback := func(v ssa.Value) bool {
+		cl, ok := v.(*ssa.Call)
+		if !ok || callName(cl) != "(net.IP).IsLoopback" {
+			return false
+		}
+		if fr, ok := asFieldLoad(cl.Call.Args[0]); ok && fr.SName == "vnet.chunkIP" && fr.Field == "destinationIP" {
+			return true // the accessor looked through
+		}
+		d, ok := cl.Call.Args[0].(*ssa.Call)
+		if !ok {
+			d, ok = origin(cl.Call.Args[0]).(*ssa.Call)
+		}
+		if !ok {
+			return false
+		}
+		name := ""
+		if d.Call.IsInvoke() {
+			name = d.Call.Method.Name()
+		} else if sc := d.Call.StaticCallee(); sc != nil {
+			name = sc.Name()
+		}
+		return name == "getDestinationIP"
+	}
+	nLoop := 0
+	instrsOfU(netWrite, func(in ssa.Instruction) {
+		if cl, ok := in.(*ssa.Call); ok && callName(cl) == "(net.IP).IsLoopback" {
+			nLoop++
+			o.Site(in.Pos(), "loopback test in %s", fname(netWrite))
+			if !isDstLoopback(cl) {
+				o.Fail(in.Pos(), "the host decides between local delivery and the router by something else than the destination IP of the datagram (a datagram to a remote address from a loopback-bound socket would be delivered locally, one to 127.0.0.1 from another socket would leave the host)")
+			}
+		}
+	})
+	withRoot(netWrite, func() {
+		for _, in := range findU(netWrite, func(in ssa.Instruction) bool { return isPlainCall(in, "(*vnet.UDPConn).onInboundChunk") }) {
+			if !hasFact(in, func(ft fact) bool { return boolFact(ft, isDstLoopback, true) }) {
+				o.Fail(in.Pos(), "the host delivers a datagram locally on a path that has not found its destination to be a loopback address")
+			}
+		}
+	})
+	if nLoop == 0 {
+		o.Fail(netWrite.Pos(), "no loopback test in %s: datagrams to 127.0.0.1 would be sent to the router", fname(netWrite))
+	}
+
 	// R6 what NAT returns is what travels (outbound)
 	o = c.Obl("R6", fname(pc), "towards the parent the router pushes exactly the outbound translation's result, only if it is non-nil and no error was returned; an error stops... only the enumerated cases", 1)
 	var tout *ssa.Call
@@ -1143,6 +1200,8 @@ func runC01(c *Ctx) {
 	_ = strings.Join
 	// "shows as source the sender's address as translated by the NATs on the path, so that a datagram sent back
 	// to that source reaches the original sender": the NAT mapping and filtering rules are part of this property
+	c.RulePrefix = "Delay."
+	routerDelayRules(c, pc, rpush)
 	c.RulePrefix = "NATmap."
 	runC02(c)
 	c.RulePrefix = "NATfilter."
